@@ -288,8 +288,9 @@ func main() {
 		fs := flag.NewFlagSet("obls", flag.ExitOnError)
 		mut := fs.String("mutant", "", "name of a seeded edit to apply in memory")
 		arch := fs.String("goarch", "", "GOARCH of the build variant")
+		patch := fs.String("patch", "", "unified diff to apply in memory")
 		fs.Parse(os.Args[2:])
-		os.Exit(obls(*mut, *arch))
+		os.Exit(obls(*mut, *arch, *patch))
 	case "selftest":
 		fs := flag.NewFlagSet("selftest", flag.ExitOnError)
 		prop := fs.String("property", "", "restrict to the seeded edits of one property")
